@@ -20,7 +20,7 @@ claim("C06",
   design_ref="DESIGN.md §3 C06, §2 E1")
 
 claim("C14",
-  technique="static path enumeration over go/ssa of the TestRequest handler with operand-flow matching; codec identity check on fix.String; forward flow of received queue messages to the socket write (shared with C04); reader needles, value formatters and parsers as premises; lock pairing on every returning path; all-types handlers neither stop the dispatch nor send; C03 integrity rules as a premise",
+  technique="static path enumeration over go/ssa of the TestRequest handler with operand-flow matching; codec identity check on fix.String; forward flow of received queue messages to the socket write (shared with C04); reader needles, value formatters and parsers as premises; lock pairing on every returning path; all-types handlers neither stop the dispatch nor send; C03 integrity rules as a premise; validator calls accessors only",
   text="On every SSA path of the TestRequest handler with parse ok and the logged-on test true: exactly one send, of kind Heartbeat, synchronous, whose TestReqID operand is TestReqID() of the builder the handler "
        "parsed its own input into; fix.String converts bytes↔string without transformation. A structural necessary condition for the echo; content-dependent mis-location of field 112 by the decoder's substring search is not decided (C18 decides anchoring).",
   note="Trusted: go/ssa; message kind = static builder type; sequential dispatch is C04's rule F5, the decoder's extraction is C18/C02.",
@@ -75,7 +75,7 @@ claim("C20",
   design_ref="DESIGN.md §3 C20, §2 E2")
 
 claim("C08",
-  technique="static wiring analysis over go/ssa: value identity of timer variables across closures, path enumeration of the heartbeat goroutine, canonical rendering of the period arithmetic, shape check of utils.Timer; period arithmetic compared as a linear form over the negotiated interval on interprocedural paths; no settings assignment after the timers were armed (typestate trace); lock pairing on every returning path of every library function; no registered message handler cancels the session; exact Int parser; send-path order shared with C19; timers armed only after the application's approval on every trace",
+  technique="static wiring analysis over go/ssa: value identity of timer variables across closures, path enumeration of the heartbeat goroutine, canonical rendering of the period arithmetic, shape check of utils.Timer; period arithmetic compared as a linear form over the negotiated interval on interprocedural paths; no settings assignment after the timers were armed (typestate trace); lock pairing on every returning path of every library function; no registered message handler cancels the session; exact Int parser; send-path order shared with C19; timers armed only after the application's approval on every trace; operand of the announced interval in the Logon request",
   text="Necessary conditions of the heartbeat guarantee, each of which breaks it when broken: the all-types outgoing handler refreshes the very timer the heartbeat goroutine waits on; each iteration of that goroutine waits once, leaves only on session cancellation and otherwise sends exactly one Heartbeat; "
        "the period is time.Second × negotiated HeartBtInt; Timer.Refresh stores time.Now(), TakeTimeout restarts the period, polls every timeout/10 and returns only on expiry or Close. The timing bound N + N/10 + slack itself depends on the scheduler and on blocking inside send and is NOT decided.",
   note="Trusted: go/ssa; time.Ticker/time.Until semantics; that every outbound message passes DefaultHandler.send (C19.H1).",
